@@ -15,6 +15,7 @@ import (
 	"github.com/uhppoted/uhppote-core/types"
 	"pgregory.net/rapid"
 
+	"verif/harness/cold"
 	"verif/harness/ev"
 	"verif/harness/fv"
 	"verif/harness/rp"
@@ -24,7 +25,7 @@ import (
 
 func TestMain(m *testing.M) {
 	time.Local = time.UTC
-	ev.Describe("message types are taken from the dispatchers themselves (all 256 codes through UnmarshalRequest/UnmarshalResponse) plus the two event types; values are filled by a reflection-driven generator that draws an in-domain value per field type (any uint8/16/32, bool, valid or zero Date, existing civil DateTime or zero, SystemDate 2000..2068 or zero, SystemTime, HH:mm 00:00..24:00, PIN 0..999999, IPv4, IPv4 AddrPort, MAC, version; pointer fields set or nil), under a spread of 40 IANA zones (quick) / every zone (thorough) as process-local zone. Oracles: (1) Unmarshal(Marshal(v)) == v under civil-field equality, zero stays zero; (2) metamorphic: random noise in every byte that belongs to no protocol field leaves the decoded value unchanged; (3) the encoding is zero in those bytes and carries 0x17/0x19 + the function code; (4) dispatcher table: 256 codes x lengths 0..128 x protocol ids. Non-trivial = value with a non-zero field besides the header; distinct = distinct (zone, type, encoding).",
+	ev.Describe("cold start: fresh processes in which the first message of every type is decoded and re-encoded by 2..16 goroutines at once (canonical messages from the protocol model, decode-then-encode must give the bytes back); message types are taken from the dispatchers themselves (all 256 codes through UnmarshalRequest/UnmarshalResponse) plus the two event types; values are filled by a reflection-driven generator that draws an in-domain value per field type (any uint8/16/32, bool, valid or zero Date, existing civil DateTime or zero, SystemDate 2000..2068 or zero, SystemTime, HH:mm 00:00..24:00, PIN 0..999999, IPv4, IPv4 AddrPort, MAC, version; pointer fields set or nil), under a spread of 40 IANA zones (quick) / every zone (thorough) as process-local zone. Oracles: (1) Unmarshal(Marshal(v)) == v under civil-field equality, zero stays zero; (2) metamorphic: random noise in every byte that belongs to no protocol field leaves the decoded value unchanged; (3) the encoding is zero in those bytes and carries 0x17/0x19 + the function code; (4) dispatcher table: 256 codes x lengths 0..128 x protocol ids. Non-trivial = value with a non-zero field besides the header; distinct = distinct (zone, type, encoding).",
 		"time.Local is switched in-process (the library reads it at call time); the thorough tier of C13 re-checks the zone mechanism with real TZ= child processes",
 		"a nil pointer field is treated as equal to the zero value it decodes to (00:00)",
 		"SystemDate years are restricted to 2000..2068 (two-digit years 69..99 have no documented century)")
@@ -487,13 +488,29 @@ func props() []rp.Prop {
 	return []rp.Prop{
 		rp.P[rtCase]{Name: "roundtrip", Checks: ev.Pick(40000, 8000000) / ev.Shards(), Gen: genRT, Sweep: sweepTypesZones, Check: checkRT},
 		rp.P[dispCase]{Name: "dispatch", Sweep: sweepDisp, Check: checkDisp},
+		rp.P[coldCase]{Name: "canonical", Sweep: func(yield func(coldCase) bool) {
+			for salt := 0; salt < 5; salt++ {
+				for _, c := range coldCases(salt) {
+					if !yield(c) {
+						return
+					}
+				}
+			}
+		}, Check: func(c coldCase) *rp.Fail {
+			ev.Case("canonical/"+c.Kind, true, c.Kind+c.Op+string(c.Msg))
+			if fp, msg := coldDecide(c); fp != "" {
+				return rp.Failf(fp, "%s", msg)
+			}
+			return nil
+		}},
+		cold.Prop{Name: "cold", Scenario: "messages", N: ev.Pick(24, 480) / ev.Shards()},
 	}
 }
 
 // TestAAAConcurrentRoundTrips: the codec is used from several goroutines at once (shared scratch buffers, memo tables):
 // every goroutine round-trips its own values and must get its own values back.
 func TestAAAConcurrentRoundTrips(t *testing.T) {
-	if ev.Replaying() {
+	if ev.Replaying() || cold.Scenario() != "" {
 		t.Skip()
 	}
 	ev.Rapid("concurrent", 1)
@@ -537,6 +554,9 @@ func TestAAAConcurrentRoundTrips(t *testing.T) {
 }
 
 func TestC05(t *testing.T) {
+	if cold.Scenario() != "" {
+		t.Skip("cold-start child")
+	}
 	names := []string{}
 	for _, tg := range targets() {
 		names = append(names, fmt.Sprintf("%s/%02x", tg.kind, tg.code))
